@@ -556,8 +556,22 @@ def run_property(prop, tier, jobs, meta, only=None):
                     info = confirm(job, prop, r)
                     info["replayed"] = True
             else:
-                info = r.get("confirm") or {"reproduced": bool(r.get("reproduced")), "replay": r.get("replay", ""),
-                                            "how": r.get("how", ""), "assert": str(asserts[:1])}
+                # E2 / structural queries: the tool re-confirms functional counterexamples itself on its concrete
+                # interpreter + bit-serial reference ("reproduced"); frame / ABI / structural failures are
+                # deterministic facts of the execution and need no data witness
+                rep = r.get("reproduced")
+                if rep is None and isinstance(r.get("counterexample"), dict):
+                    rep = r["counterexample"].get("reproduced")
+                if rep is None:
+                    rep = "counterexample" not in r
+                os.makedirs(REPLAY_DIR, exist_ok=True)
+                path = os.path.join(REPLAY_DIR, "%s-%s.replay" % (prop, re.sub(r"[^\w.-]", "_", job.name)))
+                with open(path, "w") as f:
+                    f.write("#property=%s\n#job=%s\n#cmd=%s\n" % (prop, job.name, json.dumps(job.cmd)))
+                    f.write("#result=%s\n" % json.dumps({k: r[k] for k in r if k in ("failed", "counterexample", "reproduced", "why")}))
+                info = {"reproduced": bool(rep), "replay": path, "replayed": True,
+                        "how": r.get("how", "") or ("counterexample %s" % json.dumps(r.get("counterexample", {}))),
+                        "assert": str(asserts[:2])}
             r["confirm"] = info
             if info["reproduced"]:
                 violations.append((r, info))
